@@ -94,6 +94,10 @@ func (h *WebhookHandler) handleReviewRequest(crdName string, request *v1.Convers
 		return nil, fmt.Errorf("ConversionReview handler is not defined")
 	}
 
+	// The event handler replaces request.Objects with the output of each conversion step,
+	// so remember how many objects were requested.
+	requestedCount := len(request.Objects)
+
 	conversionResponse, err := h.Manager.EventHandlerFn(crdName, request)
 	if err != nil {
 		return nil, err
@@ -103,8 +107,8 @@ func (h *WebhookHandler) handleReviewRequest(crdName string, request *v1.Convers
 		return nil, errors.New(conversionResponse.FailedMessage)
 	}
 
-	if len(request.Objects) != len(conversionResponse.ConvertedObjects) {
-		return nil, fmt.Errorf("hook returned %d objects instead of %d", len(conversionResponse.ConvertedObjects), len(request.Objects))
+	if requestedCount != len(conversionResponse.ConvertedObjects) {
+		return nil, fmt.Errorf("hook returned %d objects instead of %d", len(conversionResponse.ConvertedObjects), requestedCount)
 	}
 
 	return &v1.ConversionResponse{
